@@ -97,6 +97,10 @@ fn parse_exchange_rates_eu(exchange_rates: &str) -> Result<Vec<(String, f64)>, E
 			continue;
 		}
 		let l = l.strip_prefix("<Cube currency='").ok_or(err)?;
+		if !l.is_char_boundary(3) {
+			// fewer than 3 bytes left (truncated file), or not a 3-letter code
+			return Err(err.into());
+		}
 		let (currency, l) = l.split_at(3);
 		let l = l.trim_start_matches("' rate='");
 		let exchange_rate_eur = l.split_at(l.find('\'').ok_or(err)?).0;
